@@ -90,11 +90,20 @@ def cross_thread(res, tier, seed, have_drv):
 def run(res, tier, seed, search=False, have_drv=True):
     coreprop.run_property(res, PID, PROFILES, tier, seed, search, have_drv)
     cross_thread(res, tier, seed, have_drv)
+    # sub-sources of composite sources whose sub-ids move when an earlier sub-source leaves: readiness of a registered
+    # leaf reaches that leaf (harness `vh tok`, query `composite`; the clause `poked` of C20's monitor)
+    from props import c01
+    before = len(res.violations)
+    c01.composite_cases(res, tier, seed, have_drv)
+    res.violations[before:] = [(m.replace("C01 on a real composite source", "C02 on a real composite source"), r) for m, r in res.violations[before:]]
     if res.violations:
         res.broken = []
 
 
 def replay(path):
+    if path.endswith(".tok"):
+        from props import c01
+        return c01.replay(path)
     case = [l.rstrip("\n") for l in open(path) if l.strip()]
     kf0 = os.path.join(os.path.dirname(path), "kind.txt")
     if any(l.startswith("sched ") or l.startswith("race ") for l in case) or os.path.exists(kf0):
